@@ -295,6 +295,17 @@ pub fn run_case(sub: u64, histories: usize, scratch: &Path, acc: &mut Acc) {
         strategies.push((Strategy::Path { mmap: true }, Knobs { cloned: rng.chance(1, 2), ..Knobs::default() }));
         strategies.push((Strategy::Path { mmap: false }, Knobs { cloned: rng.chance(1, 2), ..Knobs::default() }));
         strategies.push((Strategy::Slice, Knobs { cloned: true, ..Knobs::default() }));
+        strategies.push((Strategy::File { mmap: rng.chance(1, 2) }, Knobs::default()));
+    }
+    if rng.chance(1, 5) {
+        // a heap limit with a little more room than the UTF-8 equivalent needs: what has to
+        // fit is the transcoded text, however large the encoded file is
+        let need = reference_bytes(&ec.case.data, ec.case.cfg.encoding.as_deref()).len();
+        let lim = Knobs { heap_limit: Some(need + 64 + rng.below(64)), ..Knobs::default() };
+        strategies.push((Strategy::Path { mmap: false }, lim));
+        strategies.push((Strategy::File { mmap: false }, lim));
+        strategies.push((Strategy::Reader(crate::c02::gen_history(&mut rng)), lim));
+        acc.faults.inc("heap-limit-just-above-the-transcoded-size");
     }
     let mut nontrivial = false;
     for (strat, knobs) in &strategies {
